@@ -8,6 +8,7 @@ pub fn run(ctx: &Ctx) {
     ctx.set_exhaustive(false);
     let n = ctx.tier.pick(300_000u32, 4_000_000u32);
     run_forms_n(ctx, FormSet::Transfer, n, "Transfer");
+    crate::l3fam::run(ctx, crate::l3fam::Fam::Set(FormSet::Transfer), ctx.tier.pick(320usize, 6000usize));
     if ctx.tier == Tier::Thorough {
         crate::fuzzrun::exec_campaign(ctx, &["mov", "xchg", "push", "pop", "pushf", "popf", "lahf", "sahf", "xlat"], &[]);
     }
